@@ -284,12 +284,84 @@ let expand_actions (ops : symop array) flags ivs (rs : string list) : action lis
         | _ -> [{ aop = o; resolved = (String.get flags i = 'r'); obs; a_s; a_e }]) (Array.to_list ops)))
   with _ -> None
 
+(* With the size limit: is there an interleaving of the operations' atomic sub-actions (extracted
+   specification [qstep], Model/ConcEnfSpec.v), each operation's sub-actions inside its observed interval,
+   that gives every operation its observed result and ends in the observed content? *)
+let norm_visit (s : string) : string =
+  (* "V1=a;2=;3=b" -> entries with non-empty views only *)
+  if s = "" || s.[0] <> 'V' then s else
+  "V" ^ String.concat ";" (nonempty_final (String.sub s 1 (String.length s - 1)))
+
+let q_tags (q : qstate) = spec_tags q.q_store
+
+let explain_enf cap maxkb (prefix : symop list) (ops : symop array) (flags : string)
+    (ivs : (int * int) array) (rs : string array) (final : string) : bool =
+  let n = Array.length ops in
+  let capn = n_of_int cap and max = Some (z_of_int (maxkb * 1024)) in
+  let resolve q o resolved =
+    let id = match target_of o with
+      | Some (Tag k) when resolved -> (try List.assoc k (q_tags q) with Not_found -> bogus_id)
+      | _ -> bogus_id in
+    concrete o id in
+  (* initial state: the prefix, each operation run alone *)
+  let q_init = List.fold_left (fun q o ->
+      match qdrive (nat_of_int 1000) capn max q (QStart (resolve q o true)) with
+      | Some (q', _) -> q' | None -> q) q0 prefix in
+  let want_final = nonempty_final final in
+  let q_final q = List.filter_map (fun mb -> let v = view_str (view_of (sget (n_of_int mb) q.q_store).b_msgs) in
+                    if v = "" then None else Some (Printf.sprintf "%d=%s" mb v)) universe in
+  let seen = Hashtbl.create 1024 in
+  let rec go (q : qstate) (pcs : qpc option array) =
+    let key = (q, Array.to_list pcs) in
+    if Hashtbl.mem seen key then false else begin
+      Hashtbl.add seen key ();
+      let finished i = match pcs.(i) with Some (QDone _) -> true | _ -> false in
+      if Array.for_all (fun p -> match p with Some (QDone _) -> true | _ -> false) pcs then q_final q = want_final
+      else begin
+        let ok = ref false in
+        for i = 0 to n - 1 do
+          if not !ok then
+            match pcs.(i) with
+            | Some (QDone _) -> ()
+            | None ->
+                (* i may start only when everything that returned before its call has finished *)
+                let blocked = ref false in
+                for j = 0 to n - 1 do
+                  if j <> i && not (finished j) && snd ivs.(j) < fst ivs.(i) then blocked := true
+                done;
+                if not !blocked then begin
+                  let pcs' = Array.copy pcs in
+                  pcs'.(i) <- Some (QStart (resolve q ops.(i) (flags.[i] = 'r')));
+                  if go q pcs' then ok := true
+                end
+            | Some p ->
+                let k = int_of_nat (qchoices q p) in
+                for c = 0 to k - 1 do
+                  if not !ok then
+                    match qstep capn max q p (nat_of_int c) with
+                    | None -> ()
+                    | Some (q', p') ->
+                        let fits = match p' with
+                          | QDone r -> norm_visit (res_str r) = norm_visit rs.(i)
+                          | _ -> true in
+                        if fits then begin
+                          let pcs' = Array.copy pcs in
+                          pcs'.(i) <- Some p';
+                          if go q' pcs' then ok := true
+                        end
+                done
+        done;
+        !ok
+      end
+    end in
+  go q_init (Array.make n None)
+
 let rec split_byp = function
   | [] -> ([], None)
   | "BYP" :: rest -> ([], Some rest)
   | x :: rest -> let (a, b) = split_byp rest in (x :: a, b)
 
-let rec oracle touch cap has_enf (prefix : symop list) (ops : symop array) ?(all_blocked = false) ?init (outs : string list) : string =
+let rec oracle touch cap (maxkb : int) (prefix : symop list) (ops : symop array) ?(all_blocked = false) ?init (outs : string list) : string =
   let n = Array.length ops in
   let (outs, byp) = split_byp outs in
   match byp with
@@ -297,8 +369,8 @@ let rec oracle touch cap has_enf (prefix : symop list) (ops : symop array) ?(all
       (* the model says this schedule's last pick must block; the implementation went on and was run to
          completion under control: judge that execution *)
       let flags = match outs with _ :: f :: _ -> f | _ -> String.make n '-' in
-      let v = oracle touch cap has_enf prefix ops (["fin"; flags; iv] @ rest @ ["ids=ok"]) in
-      if v = "ok" then oracle touch cap has_enf prefix ops outs else v ^ "-after-bypassed-lock"
+      let v = oracle touch cap maxkb prefix ops (["fin"; flags; iv] @ rest @ ["ids=ok"]) in
+      if v = "ok" then oracle touch cap maxkb prefix ops outs else v ^ "-after-bypassed-lock"
   | _ ->
   match outs with
   | "PANIC" :: _ -> "fail:panic"
@@ -313,7 +385,12 @@ let rec oracle touch cap has_enf (prefix : symop list) (ops : symop array) ?(all
       else if ids <> "ids=ok" then "fail:duplicate-id"
       else if status <> "fin" then "ok"
       else if List.exists2 (fun o r -> match o with SAdd _ -> r <> "id" | _ -> false) (Array.to_list ops) rs then "fail:delivery-without-id"
-      else if has_enf then "ok"
+      else if maxkb > 0 then begin
+        let ivs = List.map (fun e -> match String.split_on_char '-' e with
+            | [a; b] -> (int_of_string a, int_of_string b) | _ -> (0, 0)) (String.split_on_char ',' iv) in
+        if explain_enf cap maxkb prefix ops flags (Array.of_list ivs) (Array.of_list rs) final then "ok"
+        else "fail:not-explainable-with-size-limit"
+      end
       else begin
         let ivs = List.map (fun e -> match String.split_on_char '-' e with
             | [a; b] -> (int_of_string a, int_of_string b) | _ -> (0, 0)) (String.split_on_char ',' iv) in
@@ -424,14 +501,14 @@ let eval_mode () =
            let res = eval_all mem_machine ops (fresh mem_machine st ops) sched in
            let alts = dedup (List.map (fun o -> String.concat " " (render mem_machine ops o)) res) in
            let all_blocked = res <> [] && List.for_all (fun (s, _) -> match s with Blocked _ -> true | _ -> false) res in
-           let verdict = oracle true cap (maxkb > 0) prefix ops ~all_blocked outs in
+           let verdict = oracle true cap maxkb prefix ops ~all_blocked outs in
            print_string (String.concat " || " alts); print_string " ## "; print_string verdict; print_char '\n')
         (fun g prefix ops sched outs ->
            let st = file_init g prefix ops in
            let res = eval_all file_machine ops (fresh file_machine st ops) sched in
            let alts = dedup (List.map (fun o -> String.concat " " (render file_machine ops o)) res) in
            let all_blocked = res <> [] && List.for_all (fun (s, _) -> match s with Blocked _ -> true | _ -> false) res in
-           let verdict = oracle false 0 false prefix ops ~all_blocked outs in
+           let verdict = oracle false 0 0 prefix ops ~all_blocked outs in
            print_string (String.concat " || " alts); print_string " ## "; print_string verdict; print_char '\n')
     with
     | Not_found when (let (k, _, _) = Mlutil.split_case line in k = "burst") ->
@@ -454,7 +531,7 @@ let eval_mode () =
               | [init; opss; flags; iv; rs; final] ->
                   (try
                     let ops = Array.of_list (parse_ops opss) in
-                    let v = oracle touch 0 false [] ops ~init:(store_of_listing init)
+                    let v = oracle touch 0 0 [] ops ~init:(store_of_listing init)
                         (["fin"; flags; iv] @ String.split_on_char ',' rs @ [final; "ids=ok"]) in
                     if v <> "ok" then verdict := Printf.sprintf "%s@round%d:%s" v k (String.map (fun c -> if c = ' ' then '_' else c) tok)
                   with _ -> verdict := Printf.sprintf "fail:malformed-round%d" k)
